@@ -1081,7 +1081,9 @@ func runStallScenario(sc *stScenario, seed int64, skipBlocked bool) (evs []M, sl
 						sizes[len(sizes)-1]++
 					}
 				} else {
-					if c.conn.waiting != nil {
+					// (a connection that has been closed releases the write parked in its gate; whether that goroutine
+					//  has already returned when the snapshot is taken is a race of the driver, not an observation)
+					if c.conn.waiting != nil && !c.conn.closed {
 						fl = append(fl, one(c.conn.waiting.b))
 					}
 					for _, b := range c.conn.wire[c.conn.nseen:] {
